@@ -192,7 +192,17 @@ void run_case(ByteSource& s, CaseInfo& ci) {
         case 26: { int i = pickv(2); if (i < 0) break; int j = pick_same_dim(v[i].d); if (j < 0) break; tame(i); tame(j); SU_vector r = v[i].v->UTransform(*v[j].v, gsl_complex_rect(0, 0.01 * (1 + s.choose(50)))); (void)r; break; }
         case 27: { int i = pickv(2); if (i < 0) break; tame(i); auto es = v[i].v->GetEigenSystem(s.flag()); (void)es; break; }
         case 28: { int i = pickv(2); if (i < 0) break; auto g = v[i].v->GetGSLMatrix(); std::vector<double> c = v[i].v->GetComponents(); (void)g; (void)c; break; }
-        case 29: { int i = pickv(1); if (i < 0 || v[i].st != EMPTYV) break; auto g = v[i].v->GetGSLMatrix(); (void)g; break; }  // documented to throw for an uninitialised vector
+        case 29: { int i = pickv(1); if (i < 0 || v[i].st != EMPTYV) break;
+          // what the library itself rejects for an empty vector (tail byte chooses; each of these raises a library exception)
+          switch (s.tail_choose(6)) {
+            case 1: { auto es = v[i].v->GetEigenSystem(true); (void)es; break; }
+            case 2: { SU_vector e2; SU_vector r(squids::iCommutator(*v[i].v, e2)); (void)r; break; }
+            case 3: { SU_vector e2; SU_vector r(squids::ACommutator(*v[i].v, e2)); (void)r; break; }
+            case 4: { SU_vector e2; SU_vector r(v[i].v->Evolve(e2, 0.5)); (void)r; break; }
+            case 5: { GslMat g(0, 0); SU_vector r(g.m); (void)r; break; }
+            default: { auto g = v[i].v->GetGSLMatrix(); (void)g; break; }
+          }
+          break; }  // documented to throw for an uninitialised vector
         case 30: {  // evolution buffers (exact size) through all three Prepare forms and both filters
           int i = pickv(2); if (i < 0) break; int d = v[i].d, np = d * (d - 1) / 2;
           SU_vector h(d); for (int q = 1; q < d; q++) h[d * q + q] = 0.3 * q;
@@ -307,6 +317,24 @@ void regressions() {
   { SU_vector e, v(3); v = e; }
   SU_vector::clear_mem_cache();
   CHECK(ledger::live_blocks() == live0, "C15|blocks-not-released-at-quiescence", "regression: the block of a vector assigned from an empty one was never released");
+  // 0f4870f: library exceptions for dimension-0 operands must not leak (new[] ledger here, LeakSanitizer at exit for the GSL objects)
+  {
+    SU_vector e, e2, owner0(3); owner0 = e;  // owner0: dimension 0 but owning
+    for (int k = 0; k < 6; k++) {
+      try {
+        switch (k) {
+          case 0: { auto es = e.GetEigenSystem(true); (void)es; break; }
+          case 1: { auto es = owner0.GetEigenSystem(true); (void)es; break; }
+          case 2: { SU_vector r(squids::iCommutator(e, e2)); (void)r; break; }
+          case 3: { SU_vector r(squids::ACommutator(e, e2)); (void)r; break; }
+          case 4: { SU_vector r(e.Evolve(e2, 0.5)); (void)r; break; }
+          default: { GslMat g(0, 0); SU_vector r(g.m); (void)r; break; }
+        }
+      } catch (const std::exception&) {}
+    }
+  }
+  SU_vector::clear_mem_cache();
+  CHECK(ledger::live_blocks() == live0, "C15|blocks-not-released-at-quiescence", "regression: exception paths for dimension-0 operands leaked %ld block(s)", (long)ledger::live_blocks() - (long)live0);
   // 715c5d6: interpolating queries on a one-node solver read x[1] / state[1] (ASan: heap-buffer-overflow)
   {
     Sol s1(1, 3, 1, 0, 0.0); s1.Set_xrange(1.0, 1.0, "linear"); s1.fill();
